@@ -29,7 +29,7 @@ ASSUMPTIONS = [
     "cards: PTO 0, grid G6 given unsorted (legacy flavour: numpy array; modern flavour: list), kinematics lists with 3 points NOT ordered in Q2 and one repeated point, cross-section and structure-function observables",
     "legacy flavour: keys alphaqed, QED present, PTODIS / FONLLParts / RenScaleVar / FactScaleVar absent, TargetDIS spelled per axis; modern flavour: all keys explicit",
     "sequence length <= 2 for all cells, = 3 for a sub-lattice (quick) / all cells (thorough)",
-    "unusual card values (TMC with heavy target, PTO 1 with xiR/xiF != 1, PTODIS != PTO, non-default EW parameters + propagator correction + polarisation, kThr/Qm/masses changed, FONLLParts/DAMP, NCPositivityCharge + degree 1, scale variations off, numpy-scalar kinematics): every option x two schemes x both card flavours x all sequences of length <= 2",
+    "unusual card values (TMC with heavy target, PTO 1 with xiR/xiF != 1, PTODIS != PTO, non-default EW parameters + propagator correction + polarisation, kThr/Qm/masses changed, FONLLParts/DAMP, NCPositivityCharge + degree 1, scale variations off, numpy-scalar kinematics, a minimal card without the keys that have documented fall-backs - MZ, SIN2TW): every option x two schemes x both card flavours x all sequences of length <= 2",
 ]
 BUDGET = {"quick": 900, "thorough": 3600}
 
@@ -47,6 +47,8 @@ OPTS = {
     "npfloat": ({}, {"__npkin__": True}),
     "posall": ({}, {"NCPositivityCharge": "all"}),
     "posnone_pol": ({}, {"NCPositivityCharge": None, "PolarizationDIS": 0.3, "PropagatorCorrection": 0.0}),
+    # every key the library has a documented fall-back for is ABSENT from the caller's cards (MZ, SIN2TW; MW and ProjectileDIS have one in CouplingConstants too, but the runner itself requires those keys): filling a default in must not write into them
+    "minimal": ({"MZ": "__del__", "SIN2TW": "__del__"}, {}),
 }
 
 
@@ -66,6 +68,9 @@ def _cards(fns, nfff, tkey, flavour, proj, opt=None):
                     for kk in list(k):
                         k[kk] = np.float64(k[kk])
         o.update(copy.deepcopy(do))
+        for card in (t, o):
+            for k in [k for k, v in card.items() if isinstance(v, str) and v == "__del__"]:
+                del card[k]
     return t, o
 
 
@@ -243,8 +248,9 @@ def _check_output(st, out, t0n, o0n, o):
         probs.append("interpolation metadata (log / degree) differs from the card")
     if _norm(out["pids"]) != FLAVOR_PIDS:
         probs.append(f"pids {_norm(out['pids'])} are not the flavour-basis pids")
-    if out["projectilePID"] != PROJ_PID[st["projectile"]]:
-        probs.append(f"projectilePID {out['projectilePID']} for {st['projectile']}")
+    proj = o.get("ProjectileDIS", "electron")  # documented fall-back when the card has no projectile
+    if out["projectilePID"] != PROJ_PID[proj]:
+        probs.append(f"projectilePID {out['projectilePID']} for {proj}")
     for name, kins in o["observables"].items():
         if len(out[name]) != len(kins):
             probs.append(f"{name}: {len(out[name])} results for {len(kins)} points")
